@@ -46,6 +46,10 @@ def check(chk, repo):
     check_typestate(chk, rep, repo)
     from .c12 import check_destroy
     check_destroy(rep, repo)
+    # premise: the clustering starts from cost = density - 1 for every sample (written by calculate_pdf next to the density)
+    from .c03 import _Only
+    from .c12 import check_pdf
+    check_pdf(chk, _Only(rep, "START:", {"PDF-map", "PDF-map-sites"}), repo)
     from ..rules_heap import check_heap
     check_heap(rep, repo, "HEAP-")
     chk.undecided += [
